@@ -360,6 +360,9 @@ def measure(lines):
         mr = [rng_func(b, sz) if sz <= U32 else None for (b, sz, _) in c.mods]
         for i, (b, sz, hs) in enumerate(c.mods[1:], 1):
             r = mr[i]
+            inc("extra module: supplier", {0: "unknown to the supplier (NotFound)", 1: "symbol file", 2: "symbol file that does not parse"}[c.modflags[i]])
+            if r is not None and any(in_r(r, q) for q in c.qs):
+                inc("extra module looked up by a query", {0: "unknown to the supplier", 1: "symbol file", 2: "corrupt symbol file"}[c.modflags[i]])
             if r is None:
                 inc("extra module", "empty / not representable (base+size > 2^64-1)")
             elif mr[0] and r[0] <= mr[0][1] and mr[0][0] <= r[1]:
@@ -468,7 +471,7 @@ class C11(PropBase):
     bins = ["c11"]
     rule = ("case = records of one symbol file (FILE, INLINE_ORIGIN inside/outside FUNC blocks, PUBLIC, FUNC with line and "
             "multi-range INLINE records, STACK WIN) + module list (module 0 = base/size with symbols, optional further modules "
-            "before/inside/after it and at the top of the address space, with or without symbols) + query instructions (every "
+            "before/inside/after it and at the top of the address space, with symbols, unknown to the supplier, or with a symbol file that does not parse) + query instructions (every "
             "record boundary +-1, one below the module, module boundaries); the harness prints the .sym text (names decorated "
             "with spaces, parentheses, templates, tabs, non-ASCII; `m` flags; sparse u32 ids), parses it with the real parser and "
             "symbolicates through SymbolFile::fill_symbol, through walk_stack/fill_source_line_info/Symbolizer::fill_symbol and "
@@ -481,7 +484,8 @@ class C11(PropBase):
             "(CRLF line ends, upper-case hex, a leading zero on hex fields, space-tab-space between fields: item Y, rendered identically by the harness and by the model's own renderer); every file is "
             "additionally re-parsed by the harness as two twins (INLINE ranges of each FUNC block permuted; FILE / INLINE_ORIGIN lines moved to the end) whose tables and "
             "callbacks must be identical (field X, oracle only); the extracted model answers every case twice, from the records and from the text (C09's recogniser + finish), "
-            "and both must agree with the real code. "
+            "and both must agree with the real code. Second pass: field D of every query and the printed table come from the functions COMPILED from the Rust source (fill_symbol with its callees; the Line::Function arm of finish_item); "
+            "after the queries of a case the Symbolizer's pending_stats and per-module stats are compared with C12's cache model run on the session (field C) and judged by the oracle. "
             "Non-trivial = some query reports a function together with a source line or inline frame; distinct = distinct case lines")
     trusted_base = [
         "Coq 8.16.1 kernel (vm_compute only in the non-vacuity Examples)",
@@ -503,7 +507,8 @@ class C11(PropBase):
                    "c11_from_bytes composes that model with C11's for every byte string shorter than 2^32-1 bytes that parses - the integer ranges and the INLINE-range count of wf_file "
                    "are PROVED from the parser (c11_parser_records_in_range) and encodings of names / STACK WIN payloads as integers that fit the text always exist (c11_encodings_exist), so c11_from_bytes_closed has "
                    "no hypothesis besides the 4 GiB bound on the length of the text",
-                   "Symbolizer/SymbolSupplier caching between walk_stack and SymbolFile::fill_symbol is exercised, not modelled (C12)",
+                   "Symbolizer/SymbolSupplier caching between walk_stack and SymbolFile::fill_symbol: modelled by C12 (Model.run); C11 composes it for the sequential client of one case "
+                   "(c11_symbolizer_session, c11_symbolizer_cached_frame) and compares pending_stats / stats after every case; concurrent interleavings are C12's check, not C11's",
                    "hypothesis of the theorems: fewer than 2^32-1 INLINE ranges in one FUNC. The u32 depth counter of `for depth in 1..` can only "
                    "overflow after 2^32-1 successful lookups at depths 1..2^32-1, i.e. 2^32 INLINE records of pairwise distinct depth in one FUNC "
                    "(each its own line of >= 16 bytes, > 64 GiB of text, and 2^32 x 32-byte Inlinee = 128 GiB of Vec): not reachable by a file the parser can hold",
@@ -534,7 +539,9 @@ class C11(PropBase):
                 "to the hand-written model (c11_source_tie: operators, operands, constants, table order, keys, loop bounds; structure pinned by templates that abort on unrecognised source); second pass: the bodies of get_inlinee_at_depth, "
                 "get_outermost/innermost_sourceloc, find_nearest_public and fill_symbol (callbacks, early returns, `?`, the unbounded `for depth in 1..` loop as a Fixpoint over fuel, u64 +/- as trapping operations, indexing as a panic site) are COMPILED into Gallina "
                 "on every run and proved equal to the model for all arguments, panics included (c11_compiled_source_tie); on every well-formed file the compiled fill_symbol with any fuel covering the table's FUNCs equals symbolize and returns "
-                "(c11_compiled_fill_symbol), so the property theorems hold of the compiled source; the extracted compiled function answers the fill_symbol field of every generated query. Model and real code (parser + fill_symbol + walk_stack over a module list + Symbolizer::get_symbol_at_address) are run on the same generated files in "
+                "(c11_compiled_fill_symbol), so the property theorems hold of the compiled source; the extracted compiled function answers the fill_symbol field of every generated query; likewise the Line::Function arm of finish_item (closures included) is compiled and the table built with it equals build_symtab (c11_compiled_build_symtab); "
+                "the Symbolizer level is composed with C12's cache model for the sequential client of a case: in every finishing schedule one result per lookup in order, each the supplier's single answer for that module, requested = processed = distinct modules, "
+                "each module fetched once (c11_symbolizer_session), and in every schedule the frame filled from the cached answer is frame_of (c11_symbolizer_cached_frame); modules may be unknown to the supplier or have a corrupt file, and pending_stats / stats are compared after every case. Model and real code (parser + fill_symbol + walk_stack over a module list + Symbolizer::get_symbol_at_address) are run on the same generated files in "
                 "debug and release; an independent Python linear-scan oracle judges the real output.",
         "note": "Trusted: Coq kernel; hand-written model (correspondence-checked, parser table construction included); ExtrOcamlBasic extraction + OCaml/Rust glue; "
                 "std binary search and sort modelled from their documented algorithms. No axioms.",
